@@ -388,6 +388,111 @@ func dimensionIndexRule(c *Ctx, r *Result, rule string, floor int) {
 				r.Viol(rule, fmt.Sprintf("%s#product-mixes-dimensions-%d", c.Name(fn), bad), c.InstrPos(bo), "a per-dimension product takes "+strings.Join(constElem, ", ")+" with a constant index while the other factors, and other reads of the same sequence, use the loop variable")
 			}
 		})
+		// inside a loop that reads t[i] with its own variable, an arithmetic operand t[k] with a loop-invariant k (a constant,
+		// len(x)-1) mixes dimensions as well: remaining /= numChunks[len(coord)-1] next to remaining % numChunks[i]
+		loopVarOf := func(v ssa.Value) *ssa.Phi {
+			w := stripConv(v)
+			if inc, isInc := w.(*ssa.BinOp); isInc && inc.Op == token.ADD {
+				if k, isK := constInt(inc.Y); isK && k == 1 {
+					w = inc.X
+				}
+			}
+			phi, _ := w.(*ssa.Phi)
+			return phi
+		}
+		type inLoop struct {
+			key  string
+			loop map[*ssa.BasicBlock]bool
+		}
+		var perLoop []inLoop
+		instrs(fn, func(in ssa.Instruction) {
+			if ia, ok := in.(*ssa.IndexAddr); ok && isLoopVar(ia.Index) {
+				if phi := loopVarOf(ia.Index); phi != nil {
+					perLoop = append(perLoop, inLoop{baseKey(ia.X), naturalLoop(phi.Block())})
+				}
+			}
+		})
+		invariantIdx := func(v ssa.Value) bool {
+			if _, isK := constInt(v); isK {
+				return true
+			}
+			if bo, isB := stripConv(v).(*ssa.BinOp); isB && bo.Op == token.SUB {
+				if _, isK := constInt(bo.Y); isK {
+					if call, isCall := stripConv(bo.X).(*ssa.Call); isCall {
+						if b, isBuiltin := call.Call.Value.(*ssa.Builtin); isBuiltin && b.Name() == "len" {
+							return true
+						}
+					}
+				}
+			}
+			return false
+		}
+		instrs(fn, func(in ssa.Instruction) {
+			bo, ok := in.(*ssa.BinOp)
+			if !ok || (bo.Op != token.QUO && bo.Op != token.REM && bo.Op != token.MUL) {
+				return
+			}
+			for _, opnd := range []ssa.Value{bo.X, bo.Y} {
+				base, idx, isElem := elemOf(opnd)
+				if !isElem || !invariantIdx(idx) {
+					continue
+				}
+				if _, isK := constInt(idx); isK && bo.Op == token.MUL {
+					continue // products with a constant index are the first form above
+				}
+				for _, pl := range perLoop {
+					if pl.key == baseKey(base) && pl.loop[bo.Block()] {
+						n++
+						bad++
+						r.Viol(rule, fmt.Sprintf("%s#loop-invariant-element-in-per-dimension-arithmetic-%d", c.Name(fn), bad), c.InstrPos(bo), "inside a loop that reads "+base.Name()+"[i] with its own variable, an operand of "+bo.Op.String()+" is an element of the same sequence taken with a loop-invariant index")
+						return
+					}
+				}
+			}
+		})
+		// a counted loop takes its start and its end at the same index: for i := first[dim]; i <= last[dim]
+		instrs(fn, func(in ssa.Instruction) {
+			phi, ok := in.(*ssa.Phi)
+			if !ok || len(phi.Edges) != 2 {
+				return
+			}
+			hdr := phi.Block()
+			var initV ssa.Value
+			for i, p := range hdr.Preds {
+				if !hdr.Dominates(p) {
+					initV = phi.Edges[i]
+				}
+			}
+			if initV == nil {
+				return
+			}
+			_, iIdx, okI := elemOf(initV)
+			if !okI {
+				return
+			}
+			ifi, isIf := hdr.Instrs[len(hdr.Instrs)-1].(*ssa.If)
+			if !isIf {
+				return
+			}
+			cmp, isC := ifi.Cond.(*ssa.BinOp)
+			if !isC || stripConv(cmp.X) != ssa.Value(phi) {
+				return
+			}
+			_, bIdx, okB := elemOf(cmp.Y)
+			if !okB {
+				return
+			}
+			_, iK := constInt(iIdx)
+			_, bK := constInt(bIdx)
+			if iK == bK {
+				return // both constant or both variable
+			}
+			if (iK && isLoopVar(bIdx)) || (bK && isLoopVar(iIdx)) {
+				n++
+				bad++
+				r.Viol(rule, fmt.Sprintf("%s#loop-bounds-from-different-dimensions-%d", c.Name(fn), bad), c.InstrPos(cmp), "a counted loop starts at an element taken with a constant index and ends at one taken with the dimension variable (or the reverse)")
+			}
+		})
 		// the same for an ordering test between two elements: x[i] < t[0] where t is read per dimension elsewhere
 		instrs(fn, func(in ssa.Instruction) {
 			bo, ok := in.(*ssa.BinOp)
@@ -1591,9 +1696,10 @@ func byteOrderParamRule(c *Ctx, r *Result, rule string, floor int) {
 				fixed = c.InstrPos(site.(ssa.Instruction))
 			}
 		}
-		if viaParam == 0 {
+		if viaParam == 0 && !(fixed != "" && len(*order.Referrers()) == 0) {
 			continue // the parameter is only passed on
 		}
+		// (a byte order parameter that nothing uses, next to an access in a fixed order, is the one-access form of the same slip)
 		n++
 		r.Check(fixed == "", rule, c.Name(fn)+"#integers-in-the-caller's-byte-order", firstNonEmpty(fixed, c.Pos(fn.Pos())), fmt.Sprintf("%d integer accesses through the byte order parameter; none through a fixed byte order", viaParam))
 	}
@@ -3459,6 +3565,7 @@ func init() {
 	shareRule([]string{"C05"}, registry["C15"].Meta.Rules["C15.2"], "C15.2", func(c *Ctx, r *Result, id string) { aliasRule(c, r, "C15", ruleC15, "C15.2", id) })
 	shareRule([]string{"C05"}, registry["C12"].Meta.Rules["C12.17"], "C12.17", func(c *Ctx, r *Result, id string) { c12accounts(c, r, id) })
 	shareRule([]string{"C05"}, registry["C03"].Meta.Rules["C03.20"], "C03.20", func(c *Ctx, r *Result, id string) { symbolNodeCapacityRule(c, r, id) })
+	shareRule([]string{"C09"}, registry["C11"].Meta.Rules["C11.19"], "C11.19", func(c *Ctx, r *Result, id string) { byteOrderParamRule(c, r, id, 5) })
 	shareRule([]string{"C10"}, registry["C16"].Meta.Rules["C16.11"], "C16.11", func(c *Ctx, r *Result, id string) { sentinelIndexRule(c, r, id, 2) })
 	shareRule([]string{"C13", "C01"}, registry["C09"].Meta.Rules["C09.8"], "C09.8", func(c *Ctx, r *Result, id string) { aliasRule(c, r, "C09", c09strides, "C09.8", id) })
 	shareRule([]string{"C16"}, registry["C03"].Meta.Rules["C03.1"], "C03.1", func(c *Ctx, r *Result, id string) { aliasRule(c, r, "C03", ruleC03, "C03.1", id) })
